@@ -1,0 +1,299 @@
+//! Canonical S-expression rendering of the parse-tree grammar and of the lowered grammar.
+//!
+//! Atoms are bare keywords/numbers or `x<hex of utf-8>` strings; lists are parenthesised.
+//! Spans are omitted (they are positions in the source text, not part of the meaning).
+use super::hex;
+use crate::grammar::parse_tree as pt;
+use crate::grammar::repr as r;
+
+fn list(tag: &str, items: impl IntoIterator<Item = String>) -> String {
+    let mut s = format!("({tag}");
+    for i in items {
+        s.push(' ');
+        s.push_str(&i);
+    }
+    s.push(')');
+    s
+}
+
+pub fn attribute(a: &pt::Attribute) -> String {
+    let arg = match &a.arg {
+        pt::AttributeArg::Empty => "(empty)".to_string(),
+        pt::AttributeArg::Paren(v) => list("paren", v.iter().map(attribute)),
+        pt::AttributeArg::Equal(s) => format!("(equal {})", hex(s)),
+    };
+    format!("(attr {} {})", hex(&a.id.to_string()), arg)
+}
+
+pub fn terminal(t: &pt::TerminalString) -> String {
+    match t {
+        pt::TerminalString::Literal(pt::TerminalLiteral::Quoted(s)) => format!("(quoted {})", hex(s)),
+        pt::TerminalString::Literal(pt::TerminalLiteral::Regex(s)) => format!("(regex {})", hex(s)),
+        pt::TerminalString::Bare(s) => format!("(bare {})", hex(s)),
+        pt::TerminalString::Error => "(error)".to_string(),
+    }
+}
+
+fn name(n: &pt::Name) -> String {
+    format!("(name {} {})", if n.mutable { "mut" } else { "imm" }, hex(&n.name.to_string()))
+}
+
+fn arg_pattern(a: &pt::ArgPattern) -> String {
+    match a {
+        pt::ArgPattern::Name(n) => name(n),
+        pt::ArgPattern::Tuple(t) => list("tuple", t.tuples.iter().map(arg_pattern)),
+    }
+}
+
+pub fn symbol(s: &pt::Symbol) -> String {
+    match &s.kind {
+        pt::SymbolKind::Expr(e) => expr(e),
+        pt::SymbolKind::AmbiguousId(a) => format!("(ambiguous {})", hex(&a.to_string())),
+        pt::SymbolKind::Terminal(t) => format!("(terminal {})", terminal(t)),
+        pt::SymbolKind::Nonterminal(n) => format!("(nonterminal {})", hex(&n.to_string())),
+        pt::SymbolKind::Macro(m) => format!(
+            "(macro {} {})",
+            hex(&m.name.to_string()),
+            list("args", m.args.iter().map(symbol))
+        ),
+        pt::SymbolKind::Repeat(rep) => format!(
+            "(repeat {} {})",
+            match rep.op {
+                pt::RepeatOp::Star => "star",
+                pt::RepeatOp::Plus => "plus",
+                pt::RepeatOp::Question => "question",
+            },
+            symbol(&rep.symbol)
+        ),
+        pt::SymbolKind::Choose(s) => format!("(choose {})", symbol(s)),
+        pt::SymbolKind::Name(n, s) => format!("(named {} {})", name(n), symbol(s)),
+        pt::SymbolKind::Tuple(t, s) => format!(
+            "(tupled {} {})",
+            list("tuple", t.tuples.iter().map(arg_pattern)),
+            symbol(s)
+        ),
+        pt::SymbolKind::Lookahead => "(lookahead)".to_string(),
+        pt::SymbolKind::Lookbehind => "(lookbehind)".to_string(),
+        pt::SymbolKind::Error => "(error)".to_string(),
+    }
+}
+
+pub fn expr(e: &pt::ExprSymbol) -> String {
+    list("expr", e.symbols.iter().map(symbol))
+}
+
+fn action(a: &Option<pt::ActionKind>) -> String {
+    match a {
+        None => "(noaction)".to_string(),
+        Some(pt::ActionKind::User(c)) => format!("(user {})", hex(c)),
+        Some(pt::ActionKind::Fallible(c)) => format!("(fallible {})", hex(c)),
+        Some(pt::ActionKind::Lookahead) => "(lookahead)".to_string(),
+        Some(pt::ActionKind::Lookbehind) => "(lookbehind)".to_string(),
+    }
+}
+
+fn condition(c: &Option<pt::Condition>) -> String {
+    match c {
+        None => "(nocond)".to_string(),
+        Some(c) => format!(
+            "(cond {} {} {})",
+            match c.op {
+                pt::ConditionOp::Equals => "eq",
+                pt::ConditionOp::NotEquals => "ne",
+                pt::ConditionOp::Match => "match",
+                pt::ConditionOp::NotMatch => "nomatch",
+            },
+            hex(&c.lhs.to_string()),
+            hex(&c.rhs.to_string())
+        ),
+    }
+}
+
+pub fn alternative(a: &pt::Alternative) -> String {
+    format!(
+        "(alt {} {} {} {})",
+        expr(&a.expr),
+        condition(&a.condition),
+        action(&a.action),
+        list("attrs", a.attributes.iter().map(attribute))
+    )
+}
+
+pub fn nonterminal(n: &pt::NonterminalData) -> String {
+    format!(
+        "(nt {} {} {} {} {} {})",
+        hex(&n.name.to_string()),
+        match &n.visibility {
+            pt::Visibility::Priv => "priv".to_string(),
+            v => format!("(vis {})", hex(v.to_string().trim())),
+        },
+        list("attrs", n.attributes.iter().map(attribute)),
+        list("args", n.args.iter().map(|a| hex(&a.to_string()))),
+        match &n.type_decl {
+            None => "(notype)".to_string(),
+            Some(t) => format!("(type {})", hex(&t.to_string())),
+        },
+        list("alts", n.alternatives.iter().map(alternative))
+    )
+}
+
+fn match_item(m: &pt::MatchItem) -> String {
+    match m {
+        pt::MatchItem::CatchAll(_) => "(catchall)".to_string(),
+        pt::MatchItem::Unmapped(s, _) => {
+            format!("(unmapped {})", terminal(&pt::TerminalString::Literal(s.clone())))
+        }
+        pt::MatchItem::Mapped(s, m, _) => format!(
+            "(mapped {} {})",
+            terminal(&pt::TerminalString::Literal(s.clone())),
+            match m {
+                pt::MatchMapping::Terminal(t) => terminal(t),
+                pt::MatchMapping::Skip => "(skip)".to_string(),
+            }
+        ),
+    }
+}
+
+pub fn match_entry(e: &pt::MatchEntry) -> String {
+    format!(
+        "(entry {} {} {})",
+        e.precedence,
+        terminal(&pt::TerminalString::Literal(e.match_literal.clone())),
+        match &e.user_name {
+            pt::MatchMapping::Terminal(t) => terminal(t),
+            pt::MatchMapping::Skip => "(skip)".to_string(),
+        }
+    )
+}
+
+/// The parse-tree grammar (any stage before lowering).
+pub fn pt_grammar(g: &pt::Grammar) -> String {
+    let mut items = vec![];
+    for item in &g.items {
+        items.push(match item {
+            pt::GrammarItem::Nonterminal(n) => nonterminal(n),
+            pt::GrammarItem::Use(u) => format!("(use {})", hex(u)),
+            pt::GrammarItem::MatchToken(m) => list(
+                "match",
+                m.contents.iter().map(|c| list("rung", c.items.iter().map(match_item))),
+            ),
+            pt::GrammarItem::ExternToken(e) => format!(
+                "(extern {} {})",
+                list(
+                    "assoc",
+                    e.associated_types
+                        .iter()
+                        .map(|a| format!("({} {})", hex(&a.type_name.to_string()), hex(&a.type_ref.to_string())))
+                ),
+                match &e.enum_token {
+                    None => "(noenum)".to_string(),
+                    Some(en) => format!(
+                        "(enum {} {})",
+                        hex(&en.type_name.to_string()),
+                        list(
+                            "conversions",
+                            en.conversions.iter().map(|c| format!(
+                                "(conv {} {} {})",
+                                terminal(&c.from),
+                                hex(&c.to.to_string()),
+                                list("attrs", c.attributes.iter().map(attribute))
+                            ))
+                        )
+                    ),
+                }
+            ),
+            pt::GrammarItem::InternToken(i) => list("intern", i.match_entries.iter().map(match_entry)),
+        });
+    }
+    format!(
+        "(grammar (prefix {}) {} {})",
+        hex(&g.prefix),
+        list("attrs", g.attributes.iter().map(attribute)),
+        list("items", items)
+    )
+}
+
+pub fn r_symbol(s: &r::Symbol) -> String {
+    match s {
+        r::Symbol::Nonterminal(n) => format!("(nonterminal {})", hex(&n.to_string())),
+        r::Symbol::Terminal(t) => format!("(terminal {})", terminal(t)),
+    }
+}
+
+fn action_fn_defn(i: usize, d: &r::ActionFnDefn) -> String {
+    let kind = match &d.kind {
+        r::ActionFnDefnKind::User(u) => format!(
+            "(user {} {} {})",
+            list("patterns", u.arg_patterns.iter().map(arg_pattern)),
+            list("types", u.arg_types.iter().map(|t| hex(&t.to_string()))),
+            hex(&u.code)
+        ),
+        r::ActionFnDefnKind::Inline(inl) => format!(
+            "(inline {} {})",
+            inl.action.index(),
+            list(
+                "symbols",
+                inl.symbols.iter().map(|s| match s {
+                    r::InlinedSymbol::Original(s) => format!("(original {})", r_symbol(s)),
+                    r::InlinedSymbol::Inlined(a, syms) => format!(
+                        "(inlined {} {})",
+                        a.index(),
+                        list("symbols", syms.iter().map(r_symbol))
+                    ),
+                })
+            )
+        ),
+        r::ActionFnDefnKind::Lookaround(r::LookaroundActionFnDefn::Lookahead) => "(lookahead)".to_string(),
+        r::ActionFnDefnKind::Lookaround(r::LookaroundActionFnDefn::Lookbehind) => "(lookbehind)".to_string(),
+    };
+    format!(
+        "(actionfn {} {} {} {})",
+        i,
+        if d.fallible { "fallible" } else { "infallible" },
+        hex(&d.ret_type.to_string()),
+        kind
+    )
+}
+
+/// The lowered grammar (after `lower` / after `inline`).
+pub fn r_grammar(g: &r::Grammar) -> String {
+    let nts = g.nonterminals.iter().map(|(name, data)| {
+        format!(
+            "(nt {} {} {} {})",
+            hex(&name.to_string()),
+            if data.visibility.is_pub() { "pub" } else { "priv" },
+            hex(&g.types.nonterminal_type(name).to_string()),
+            list(
+                "prods",
+                data.productions.iter().map(|p| format!(
+                    "(prod {} {})",
+                    p.action.index(),
+                    list("symbols", p.symbols.iter().map(r_symbol))
+                ))
+            )
+        )
+    });
+    format!(
+        "(rgrammar (prefix {}) (recovery {}) {} {} {} {} {})",
+        hex(&g.prefix),
+        g.uses_error_recovery,
+        list(
+            "starts",
+            g.start_nonterminals
+                .iter()
+                .map(|(u, s)| format!("({} {})", hex(&u.to_string()), hex(&s.to_string())))
+        ),
+        list("terminals", g.terminals.all.iter().map(terminal)),
+        list(
+            "conversions",
+            g.conversions
+                .iter()
+                .map(|(t, p)| format!("({} {})", terminal(t), hex(&p.to_string())))
+        ),
+        list("nonterminals", nts),
+        list(
+            "actions",
+            g.action_fn_defns.iter().enumerate().map(|(i, d)| action_fn_defn(i, d))
+        ),
+    )
+}
